@@ -39,7 +39,7 @@ def units(tier, seed):
     us.append(('lists',))
     us.append(('strsizes',))
     us.append(('dups',))
-    for i in range(12 if tier == 'quick' else 64):
+    for i in range(12 if tier == 'quick' else 640):
         us.append(('additive', i))
     return us
 
